@@ -36,7 +36,7 @@ DISPATCHERS = {
 
 def generate(lib, outdir):
     syms = build.nm_symbols(lib)
-    text = {s for s, t in syms.items() if t in "Tt"}
+    text = {s for s, t in syms.items() if t == "T" and not s.endswith("_mbinit") and "dispatch_init" not in s and not s.endswith("_dispatched")}
     lines = ["/* generated from the symbol table of %s */" % os.path.basename(lib), "#ifndef GEN_SYMS_H", "#define GEN_SYMS_H"]
     total = 0
     for name, rx in FAMILIES:
